@@ -22,6 +22,8 @@ pub enum WriteMode {
     PendingEach,
     /// ask the chooser at every call: deviation {accept all, accept 1 byte, accept half, Pending}
     Explore,
+    /// every packet: half accepted, then Pending once, then the rest (partial write followed by Pending)
+    HalfThenPending,
 }
 
 pub struct Wire {
@@ -45,6 +47,7 @@ pub struct Wire {
     pub write_waker: Option<Waker>,
     pub write_blocked: bool,
     pub pending_armed: bool,
+    pub htp_phase: u8,
     pub writes: u64,
     pub chz: Option<Chz>,
 }
@@ -68,6 +71,7 @@ impl Wire {
             write_waker: None,
             write_blocked: false,
             pending_armed: true,
+            htp_phase: 0,
             writes: 0,
             chz: None,
         }))
@@ -164,6 +168,25 @@ impl AsyncWrite for MockWrite {
                 }
                 w.pending_armed = true;
                 buf.len()
+            }
+            WriteMode::HalfThenPending => {
+                // phase 0: accept half; phase 1: Pending; phase 2: accept the rest
+                match w.htp_phase {
+                    0 if buf.len() > 1 => {
+                        w.htp_phase = 1;
+                        buf.len() / 2
+                    }
+                    1 => {
+                        w.htp_phase = 2;
+                        w.write_blocked = true;
+                        w.write_waker = Some(cx.waker().clone());
+                        return Poll::Pending;
+                    }
+                    _ => {
+                        w.htp_phase = 0;
+                        buf.len()
+                    }
+                }
             }
             WriteMode::Explore => {
                 let chz = w.chz.clone().expect("Explore write mode needs a chooser");
